@@ -373,7 +373,7 @@ func TestC14_RapidTokenStreams(t *testing.T) {
 			c.After = rapid.SampledFrom([]string{"", string(c.Seps[0]) + "tail", "\n", string(c.Seps[len(c.Seps)-1])}).Draw(rt, "after")
 		} else {
 			c.Quotes, c.Seps, c.Setup = []rune{'\''}, nil, nil
-			c.Before = rapid.SampledFrom([]string{"", "x = ", "f(", "1 + ", "/* note */", "x = /* ' */", "1 +\t\n", "/**/ /* c */"}).Draw(rt, "before")
+			c.Before = rapid.SampledFrom([]string{"", "x = ", "f(", "1 + ", "/* note */", "x = /* ' */", "1 +\t\n", "/**/ /* c */", "/** note **/", "/****/ ", "x = /* a **/", "/***/"}).Draw(rt, "before")
 			c.After = rapid.SampledFrom([]string{"", ")", " + 1", "\n", "/* c */"}).Draw(rt, "after")
 			if rapid.Bool().Draw(rt, "withopts") {
 				// what the expression parser itself switches on, and subsets / supersets of it
